@@ -368,3 +368,61 @@ def aug_to_assign(st: ast.stmt) -> ast.stmt:
         new = ast.Assign(targets=[st.target], value=ast.BinOp(left=tgt_load, op=st.op, right=st.value))
         return ast.copy_location(new, st)
     return st
+
+
+def normalised_statements(func_node: ast.AST) -> List[ast.stmt]:
+    """Statements of a function with behaviour-preserving spelling differences removed:
+    * scalar aliases (`half = N // 2`: a single definition, an arithmetic expression over names and constants) are
+      substituted into their uses and dropped;
+    * parallel tuple assignments `a, b = e1, e2` are split into `a = e1`, `b = e2`;
+    * `if not c: A else: B` is rewritten to `if c: B else: A`."""
+    import copy
+
+    fn = copy.deepcopy(func_node)
+    defs: Dict[str, List[ast.Assign]] = {}
+    for st in ast.walk(fn):
+        if isinstance(st, ast.Assign) and len(st.targets) == 1 and isinstance(st.targets[0], ast.Name):
+            defs.setdefault(st.targets[0].id, []).append(st)
+        elif isinstance(st, (ast.AugAssign, ast.For)) and isinstance(getattr(st, "target", None), ast.Name):
+            defs.setdefault(st.target.id, []).append(None)  # type: ignore[arg-type]
+
+    def scalar(e: ast.AST) -> bool:
+        return all(isinstance(x, (ast.BinOp, ast.UnaryOp, ast.Name, ast.Constant, ast.operator, ast.unaryop, ast.expr_context, ast.Attribute)) for x in ast.walk(e)) and isinstance(e, (ast.BinOp, ast.UnaryOp))
+
+    alias = {k: v[0].value for k, v in defs.items() if len(v) == 1 and v[0] is not None and scalar(v[0].value)}
+    params = {a.arg for a in getattr(fn, "args", ast.arguments(posonlyargs=[], args=[], kwonlyargs=[], kw_defaults=[], defaults=[])).args}
+    alias = {k: v for k, v in alias.items() if k not in params}
+
+    class Sub(ast.NodeTransformer):
+        def visit_Name(self, n):
+            if isinstance(n.ctx, ast.Load) and n.id in alias:
+                return copy.deepcopy(alias[n.id])
+            return n
+
+        def visit_If(self, n):
+            self.generic_visit(n)
+            if isinstance(n.test, ast.UnaryOp) and isinstance(n.test.op, ast.Not) and n.orelse:
+                n.test, n.body, n.orelse = n.test.operand, n.orelse, n.body
+            return n
+
+    out: List[ast.stmt] = []
+
+    def emit(body):
+        res = []
+        for st in body:
+            if isinstance(st, ast.Assign) and len(st.targets) == 1 and isinstance(st.targets[0], ast.Name) and st.targets[0].id in alias:
+                continue
+            if isinstance(st, ast.Assign) and len(st.targets) == 1 and isinstance(st.targets[0], ast.Tuple) and isinstance(st.value, ast.Tuple) and len(st.targets[0].elts) == len(st.value.elts) and not any(isinstance(e, ast.Starred) for e in st.targets[0].elts + st.value.elts):
+                for t, v in zip(st.targets[0].elts, st.value.elts):
+                    res.append(ast.copy_location(ast.Assign(targets=[t], value=v), st))
+                continue
+            for fld in ("body", "orelse", "finalbody"):
+                if hasattr(st, fld) and isinstance(getattr(st, fld), list):
+                    setattr(st, fld, emit(getattr(st, fld)))
+            res.append(st)
+        return res
+
+    for _ in range(3):  # aliases of aliases
+        fn = ast.fix_missing_locations(Sub().visit(fn))
+    fn.body = emit(fn.body)
+    return list(stmts_of(fn.body))
